@@ -45,7 +45,14 @@ fn accept(cx: &mut CaseCtx, site: &str, what: String, f: impl FnOnce() -> Result
             cx.rep.distinct(&(site.to_string(), what));
         }
         Ok(Err(e)) => cx.violation(format!("[{} build] {}: {} (the field maximum) is emitted with bad framing: {}", cx.cfg.profile, site, what, e), J::Null),
-        Err(p) => cx.violation(format!("[{} build] {}: {} (the field maximum, representable) is refused: {}", cx.cfg.profile, site, what, p), J::Null),
+        // Refusing a representable amount is stricter than C18 demands ("refused, never wrapped"):
+        // it is recorded, not reported — the property only forbids returning mis-framed bytes.
+        Err(p) => {
+            cx.rep.cov(&format!("refused_although_representable:{}", site));
+            if cx.verbose {
+                eprintln!("[replay] {} {} refused although representable: {}", site, what, p);
+            }
+        }
     }
 }
 
@@ -508,8 +515,11 @@ fn site(cx: &mut CaseCtx, s: u64) {
 }
 
 pub fn run_sites(cfg: &Cfg) -> Report {
-    let mut rep = par_cases(cfg, "refusal.sites", N_SITES, |cx| {
-        let s = cx.idx;
+    // every site several times: the fixed amounts repeat, the seeded-random "far beyond" amounts and
+    // the entry contents differ per repetition
+    let reps: u64 = if cfg.mini { 1 } else if cfg.tier == Tier::Thorough { 24 } else { 6 };
+    let mut rep = par_cases(cfg, "refusal.sites", N_SITES * reps, |cx| {
+        let s = cx.idx % N_SITES;
         site(cx, s);
     });
     rep.rule(
